@@ -35,7 +35,8 @@ REQUIRED_OBS = ["reconnects_judged", "refresh_requests_at_open", "converged_afte
                 "unchanged_refresh_silent", "poll_requests_predicted_and_seen",
                 "poll_restarted_by_status", "poll_after_reconnection", "flapping_reconnections",
                 "refused_attempts_before_reconnection", "initialised_after_init_gave_up",
-                "reconnections_with_commands_pending"]
+                "reconnections_with_commands_pending",
+                "reconnections_after_the_held_commands_expired"]
 SOAK = True   # also judged by the whole-run monitors of the soak sessions (vf/soak.py)
 BUDGET = {"quick": 100, "thorough": 1500}
 
@@ -76,6 +77,13 @@ def cases(tier, seed):
                        "outage": rnd.choice([1.9, 2.0, 5.0]), "delta": "all",
                        "seed": rnd.randrange(1 << 30), "err": None, "flaps": 0,
                        "pending": pending}
+        # ... and an outage that outlasts them: they expire, the refresh must not find them
+        # in its way
+        for pending in (["ok"] * 10, ["ok"] * 4, ["ok"] * 10 + ["inf"]):
+            yield {"k": "reconnect", "gen": gen, "how": "fin", "tau": 1.0,
+                   "outage": rnd.choice([31.0, 45.0, 400.0]), "delta": "all",
+                   "seed": rnd.randrange(1 << 30), "err": None, "flaps": 0,
+                   "pending": pending, "expire": True}
         for outage in OUTAGES:
             for delta in ("none", "one", "all"):
                 yield {"k": "reconnect", "gen": gen, "how": "hb", "tau": 0.0, "outage": outage,
@@ -238,7 +246,16 @@ def run_reconnect(case):
                         {"s300": 300.0, "nan": float("nan"), "inf": float("inf")}[kind])
             except (ValueError, ArithmeticError) as e:
                 log.add("API.raise", name=kind, exc=repr(e))
-        out["pending_ok"] = n_ok
+            except Exception as e:  # noqa: BLE001
+                import pyairtouch.comms.socket as psock
+                if not isinstance(e, psock.QueueOverflowError):
+                    raise
+                log.add("API.raise", name=kind, exc=repr(e))   # an eleventh one: refused
+                if kind == "ok":
+                    n_ok -= 1
+        out["pending_ok"] = 0 if case.get("expire") else n_ok
+        if case.get("expire"):
+            out["accepted_then_expired"] = min(n_ok, 10)
         await asyncio.sleep(case["outage"] + 2.5 + 2.0 * case.get("refusals", 0))
         await quiesce(loop)
         c2 = net.current()
@@ -278,11 +295,13 @@ def run_reconnect(case):
     if missing:
         # (with ten commands held the buffer is full when the connected notification asks for
         # the refresh: recorded defect D15, a mechanism of its own)
-        full = out.get("pending_ok", 0) >= 10
+        full = out.get("pending_ok", 0) >= 10 and not case.get("expire")
         v("refresh-request-missing-at-reconnect" + (":ten-commands-held" if full else ""),
           missing=missing, seen=out["reqs"][:6], open_at=out["open_t"])
     else:
         obs["refresh_requests_at_open"] = 1
+    if case.get("expire"):
+        obs["reconnections_after_the_held_commands_expired"] = 1
     if case.get("pending"):
         obs["reconnections_with_commands_pending"] = 1
         got = sum(1 for t, k in out["reqs"] if k == "ac_control")
